@@ -445,7 +445,7 @@ Qed.
 (* an error never leaves a partial url: the caller sees an exception (None) or the fixed marker *)
 Theorem map_output_total throws r :
   match r with
-  | Ok u => map_output throws r = Some (if throws then u else cstr u)
+  | Ok u => map_output throws r = Some u
   | Err _ => map_output throws r = if throws then None else Some invalid_url
   end.
 Proof. destruct r; reflexivity. Qed.
